@@ -67,10 +67,14 @@ def render_sch(x):
 
 
 def shape(s):
+    if s.startswith("C(") and len(s) == 4:
+        return "C(_)"
     return KRE.sub(":_", s)
 
 
 def kinds(s):
+    if s.startswith("C(") and len(s) == 4:
+        return [s[2]]
     return KRE.findall(s)
 
 
@@ -85,6 +89,8 @@ def canon(code, model, empty=False, lenient=False):
     for c, m in zip(kinds(code), kinds(model)):
         if c == m or (m, c) in PROMO or (c, m) in PROMO or empty:
             continue
+        if m == "o" and model.startswith("C("):
+            continue  # a scalar reduced from an object column has the python type of the values, not of the stand-in's strings
         if lenient and c in "fo" and m in "ibf":
             continue  # a promotion that went through a later aggregation (sum of a promoted column, min over mixed columns)
         return code, False
@@ -165,8 +171,7 @@ OPAQUE = "src|!"  # marks an opaque source that stands for an unmodelled operato
 
 def _stack_kinds_ok(frames):
     """row-wise concat: pandas' block-wise result for bool columns stacked with numeric ones depends on the order of the
-    inputs (int+bool -> int, float+bool -> float, bool+float -> object): outside the model; so is the name pandas keeps
-    for a leading named RangeIndex stand-in when the index names differ"""
+    inputs (int+bool -> int, float+bool -> float, bool+float -> object): outside the model"""
     metas = [f._meta for f in frames]
     if all(isinstance(m, pd.DataFrame) for m in metas):
         seen = {}
@@ -179,9 +184,6 @@ def _stack_kinds_ok(frames):
         ks = {kch(m.dtype) for m in metas}
         if "b" in ks and len(ks) > 1:
             return False
-    names = [tuple(m.index.names) for m in metas if hasattr(m, "index")]
-    if len(set(names)) > 1 and any(isinstance(m.index, pd.RangeIndex) and m.index.name is not None for m in metas if hasattr(m, "index")):
-        return False
     return True
 
 
@@ -192,8 +194,13 @@ def tokens(e, rt=None, root=True):
     rt = rt or {}
     sfx = rt.get(e._name, "")
     t = type(e)
-    if not root and not inside_model(e._meta):
-        raise OutsideModel(type(e).__name__)
+    if not root:
+        try:
+            ok = inside_model(e._meta)
+        except Exception:  # noqa: BLE001
+            ok = False  # an inner node that cannot declare its schema (an optimizer-created node that raises: C04/C01)
+        if not ok:
+            raise OutsideModel(type(e).__name__)
     try:
         if t is E.Projection:
             cols = e.operand("columns")
